@@ -240,6 +240,15 @@ def analyse(V, f, contract):
                         sink("call", ins, "call of %s, which has no leak contract" % name, secret_args)
                     continue
                 cc = V.contract_for(callee)
+                if cc is None and callee.get("hasBody"):
+                    # a helper without a contract (e.g. extracted by a refactoring): its body is analysed as
+                    # `leak none` with every parameter secret, so the call itself is not a sink
+                    extra = getattr(V, "flow_extra", None)
+                    if extra is None:
+                        extra = V.flow_extra = []
+                    if callee["name"] not in [x["name"] for x in extra]:
+                        extra.append(callee)
+                    continue
                 lk = None
                 if cc is not None:
                     for kind, txt in cc.other:
